@@ -131,6 +131,59 @@ class DeleteRateCellsKeep(Contract):
         V.oblige("post:prefix-contract-reached-the-end-unexpectedly", z3.BoolVal(True))
 
 
+class FindElWithinNestedList(Contract):
+    """find_el_within_nested_list(L, el) = the strictly ascending positions g of exactly the groups of L that contain el (the step
+    that translates original cell numbers into current row positions when an index list is threaded).  L is a list of symbolic
+    length whose groups are integer lists of symbolic lengths (uninterpreted `group_len`, `group_member`)."""
+    target = f"{REL}::find_el_within_nested_list"
+    variants = ("nested-int-lists",)
+    property_ids = ("C13",)
+    expected = ("post:positions-strictly-ascending", "post:every-position-holds-the-element", "post:no-holding-group-is-missed")
+
+    def setup(self, V, variant):
+        ctx = V.ctx
+        G = V.int("n_groups", lo=0)
+        lenf = z3.Function("group_len", z3.IntSort(), z3.IntSort())
+        mem = z3.Function("group_member", z3.IntSort(), z3.IntSort(), z3.IntSort())
+
+        def group(g):
+            gz = zint(g)
+            ctx.assume(lenf(gz) >= 0)
+            return Vec(lenf(gz), lambda j: Num(mem(gz, zint(j)), True), kind="list", elem="int")
+        L = Vec(G, group, kind="list", elem="obj")
+        el = Num(z3.Int("my_el"), True)
+        V.env.update(G=G, lenf=lenf, mem=mem, el=el.z, L=L)
+        return [L, el], {}
+
+    def post(self, V, variant, env, outcome):
+        ctx = V.ctx
+        if outcome[0] != "return":
+            V.oblige(f"post:no-exception[{outcome[1]}]", False)
+            return
+        r = outcome[1]
+        if not isinstance(r, Vec) or r.elem != "int":
+            V.oblige("post:returns-an-integer-array", False)
+            return
+        G, lenf, mem, el = env["G"], env["lenf"], env["mem"], env["el"]
+        c = zint(r.length)
+        k1, k2, j, g = z3.Int("k13f"), z3.Int("kk13f"), z3.Int("j13f"), z3.Int("g13f")
+        at = lambda k: zint(to_num(vget(ctx, r, k)).z)
+        holds = lambda grp: z3.Exists([j], z3.And(j >= 0, j < lenf(grp), mem(grp, j) == el))
+        V.oblige("post:positions-strictly-ascending", z3.Implies(z3.And(0 <= k1, k1 < k2, k2 < c), at(k1) < at(k2)))
+        V.oblige("post:every-position-holds-the-element", z3.Implies(z3.And(0 <= k1, k1 < c), z3.And(at(k1) >= 0, at(k1) < G, holds(at(k1)))))
+        fo = getattr(r, "filter_of", None)
+        if fo is None:
+            raise Unsupported("result is not recognisable as np.where(...)[0] (filter contract)")
+        inv = fo[3]
+        V.oblige("post:no-holding-group-is-missed", z3.Implies(z3.And(0 <= g, g < G, holds(g)), z3.And(0 <= inv(g), inv(g) < c, at(inv(g)) == g)))
+        V.oblige("post:one-dimensional-no-longer-than-the-list", z3.And(c >= 0, c <= G))
+
+    def mustfail(self, V, variant, env, outcome):
+        r = outcome[1]
+        if isinstance(r, Vec):
+            V.oblige("mustfail:never-finds-anything", zint(r.length) == 0, kind="mustfail")
+
+
 class DeleteRateCells(Contract):
     """Full contract of delete_rate_cells for a csr matrix without an incoming index list (the call `cut_and_merge` makes when only
     the upper limit is given): with K = `to_keep` (proved strictly ascending complement of `to_remove`, see DeleteRateCellsKeep),
@@ -336,6 +389,6 @@ class OpaqueFn(Contract):
 
 DeleteRateCellsKeep.apply = lambda self, interp, func, args, kwargs: ReducerAssumed(self.target, "to_remove").apply(interp, func, args, kwargs)
 DeleteRateCells.apply = DeleteRateCellsKeep.apply
-CONTRACTS = [SqraNormalize(), DeleteRateCellsKeep(), DeleteRateCells(), CutAndMerge()]
+CONTRACTS = [SqraNormalize(), FindElWithinNestedList(), DeleteRateCellsKeep(), DeleteRateCells(), CutAndMerge()]
 CALLEE_CONTRACTS = [ReducerAssumed(f"{REL}::merge_matrix_cells", "all_to_join"), OpaqueFn(f"{REL}::determine_rate_cells_to_join"),
                     OpaqueFn(f"{REL}::determine_rate_cells_with_too_high_energy")]
